@@ -585,6 +585,8 @@
    (else
     (let ((d (car o)))
       (cond
+       ((not (and (fixnum? d) (> d 1)))
+        (error "number->string: invalid radix" d))
        ((%complex? num)
         (let ((real (real-part num))
               (imag (imag-part num)))
